@@ -412,8 +412,18 @@ def judge_panel(ref, params, df, init, vf_list, *, tol=None, targets=None, judge
                 i0 = int(np.nonzero(v & (vd > tol))[0][0])
                 out["C02"].append({"key": "value_not_max", "what": f"period {t}: reported value differs from the maximum for {int((vd[v] > tol).sum())} agents; agent {i0}: value={val[i0]!r} max={qmax[i0]!r}"})
         # ---- C03 law of motion ---------------------------------------------------
-        if t < T - 1 and valid.any():
-            v = valid
+        # scope: every row whose state is a state of the period's space - also agents without
+        # any feasible choice (value -inf) and agents that were out of scope earlier: the
+        # statement binds the next row to the transition functions at the REPORTED row
+        v3 = inr.copy()
+        for c in ref.choices:
+            cv = np.asarray(ch[c], dtype=float)
+            v3 &= np.isfinite(cv)
+            if ref.is_disc(c):
+                v3 &= (cv >= 0) & (cv < ref.spec[c]["n"]) & (cv == np.rint(cv))
+        add("c03_rows_without_finite_optimum_judged", int((v3 & ~valid).sum()))
+        if t < T - 1 and v3.any():
+            v = v3
             nxt = {s: cols[s][t + 1] for s in ref.states}
             with np.errstate(all="ignore"):
                 exp = ref.next_states(st, ch, t, params)
@@ -479,7 +489,7 @@ def judge_targets(ref, params, df, targets, valid):
 # --------------------------------------------------------------------------------------
 # convenience: one real simulate() call
 # --------------------------------------------------------------------------------------
-def simulate_once(fsim, params, init, vf=None, seed=0, targets=None, leaf="float"):
+def simulate_once(fsim, params, init, vf=None, seed=0, targets=None, leaf="float", st_obj=None):
     import jax.numpy as jnp
 
     kw = {}
@@ -487,7 +497,24 @@ def simulate_once(fsim, params, init, vf=None, seed=0, targets=None, leaf="float
         kw["vf_arr_list"] = [jnp.asarray(a) for a in vf]
     if targets is not None:
         kw["additional_targets"] = list(targets)
-    return fsim(dsl.lcm_params(params, leaf=leaf), initial_states=pipeline.jnp_states(init), seed=seed, **kw)
+    st = pipeline.jnp_states(init) if st_obj is None else st_obj
+    df = fsim(dsl.lcm_params(params, leaf=leaf), initial_states=st, seed=seed, **kw)
+    # the mapping handed in must come back unchanged (a user re-uses it for the next call)
+    try:
+        if sorted(st) != sorted(init) or any(not np.array_equal(np.asarray(st[k]), np.asarray(init[k])) for k in init):
+            ARG_MUTATIONS.append({"key": "initial_states_modified", "what": "the initial_states mapping passed to simulate was modified by the call (keys or values differ afterwards)"})
+    except Exception:  # noqa: BLE001
+        pass
+    return df
+
+
+ARG_MUTATIONS = []
+
+
+def drain_argument_mutations():
+    out = list(ARG_MUTATIONS[:1])
+    ARG_MUTATIONS.clear()
+    return out
 
 
 def row_specific_shocks(rng, ref, params):
